@@ -26,6 +26,23 @@ theorem fv_child {op : Op} {args : List Term} {p : Payload} {a : Term} {s : Sym}
     s ∈ (Term.node op args p).fv :=
   mem_fv_child op args p a ha s hs hsym (fun _ _ h => by simp [hq] at h)
 
+/-! ## which nodes get a definition symbol -/
+
+theorem wantsKey_and_many {args : List Term} {p : Payload} (h : ∀ a, args = [a] → False) :
+    wantsKey (.node .and args p) = true := by
+  rw [wantsKey.eq_def]; simp only
+
+theorem wantsKey_or_many {args : List Term} {p : Payload} (h : ∀ a, args = [a] → False) :
+    wantsKey (.node .or args p) = true := by
+  rw [wantsKey.eq_def]; simp only
+
+theorem wantsKey_implies (a b : Term) (p : Payload) : wantsKey (.node .implies [a, b] p) = true := rfl
+theorem wantsKey_iff (a b : Term) (p : Payload) : wantsKey (.node .iff [a, b] p) = true := rfl
+theorem wantsKey_ite {i th el : Term} {p : Payload} (h : ¬ ph (.node .ite [i, th, el] p) = true) :
+    wantsKey (.node .ite [i, th, el] p) = true := by
+  simp only [wantsKey, Bool.not_eq_eq_eq_not, Bool.not_true]
+  simpa using h
+
 /-! ## the canonical extension -/
 
 /-- `I` extended on the definition symbols: `u` maps a definition symbol back to its sub-formula -/
@@ -125,17 +142,18 @@ end clauses
 /-! ## completeness of the definitions -/
 
 theorem enc_complete (E : Env) (u : Sym → Option Term) (I : Interp) (hσ : SimpSoundAt E.simp (ext u I)) :
-    (g : Term) → (∀ h ∈ g.subterms, u (E.key h) = some h) → (∀ s ∈ g.fv, u s = none) →
+    (g : Term) → (∀ h ∈ g.subterms, wantsKey h = true → u (E.key h) = some h) → (∀ s ∈ g.fv, u s = none) →
       tv (ext u I) (enc E g).1 = tv I g ∧ holdsAll (ext u I) (enc E g).2
   | .node op args p => by
     intro hk hf
-    have hself : tv (ext u I) (Term.sym (E.key (.node op args p))) = tv I (.node op args p) :=
-      tv_ext_key (hk _ (subterms_self _))
+    have hself : wantsKey (.node op args p) = true →
+        tv (ext u I) (Term.sym (E.key (.node op args p))) = tv I (.node op args p) :=
+      fun hw => tv_ext_key (hk _ (subterms_self _) hw)
     have hatom : tv (ext u I) (Term.node op args p) = tv I (.node op args p) :=
       (ext_sameOn I _ hf).tv.symm
     have ih : ∀ a ∈ args, op ≠ .symbol → op.isQuantifier = false →
         tv (ext u I) (enc E a).1 = tv I a ∧ holdsAll (ext u I) (enc E a).2 :=
-      fun a ha h1 h2 => enc_complete E u I hσ a (fun h hh => hk h (subterms_child ha hh))
+      fun a ha h1 h2 => enc_complete E u I hσ a (fun h hh hw => hk h (subterms_child ha hh) hw)
         (fun s hs => hf s (fv_child ha hs h1 h2))
     clear hk hf
     revert hself hatom ih
@@ -147,6 +165,8 @@ theorem enc_complete (E : Env) (u : Sym → Option Term) (I : Interp) (hσ : Sim
       refine ⟨?_, this.2⟩
       rw [this.1, tv_and]; simp
     · -- and as
+      rename_i hne
+      have hself := hself (wantsKey_and_many hne)
       have ih' : ∀ a ∈ args, tv (ext u I) (enc E a).1 = tv I a ∧ holdsAll (ext u I) (enc E a).2 :=
         fun a ha => ih a ha (by simp) rfl
       have hall : (args.map (fun a => (enc E a).1)).all (tv (ext u I)) = args.all (tv I) := by
@@ -172,6 +192,8 @@ theorem enc_complete (E : Env) (u : Sym → Option Term) (I : Interp) (hσ : Sim
       refine ⟨?_, this.2⟩
       rw [this.1, tv_or]; simp
     · -- or as
+      rename_i hne
+      have hself := hself (wantsKey_or_many hne)
       have ih' : ∀ a ∈ args, tv (ext u I) (enc E a).1 = tv I a ∧ holdsAll (ext u I) (enc E a).2 :=
         fun a ha => ih a ha (by simp) rfl
       have hany : (args.map (fun a => (enc E a).1)).any (tv (ext u I)) = args.any (tv I) := by
@@ -207,6 +229,7 @@ theorem enc_complete (E : Env) (u : Sym → Option Term) (I : Interp) (hσ : Sim
         · exact ⟨by rw [tv_negLit hσ, iha.1, tv_not], iha.2⟩
     · -- implies [a, b]
       next a b =>
+      have hself := hself (wantsKey_implies a b p)
       have iha := ih a (by simp) (by simp) rfl
       have ihb := ih b (by simp) (by simp) rfl
       refine ⟨by rw [hself], ?_⟩
@@ -219,6 +242,7 @@ theorem enc_complete (E : Env) (u : Sym → Option Term) (I : Interp) (hσ : Sim
         cases tv I a <;> cases tv I b <;> rfl
     · -- iff [a, b]
       next a b =>
+      have hself := hself (wantsKey_iff a b p)
       have iha := ih a (by simp) (by simp) rfl
       have ihb := ih b (by simp) (by simp) rfl
       refine ⟨by rw [hself], ?_⟩
@@ -233,7 +257,9 @@ theorem enc_complete (E : Env) (u : Sym → Option Term) (I : Interp) (hσ : Sim
       next i th el =>
       split
       · exact ⟨hatom, holdsAll_nil⟩
-      · have ihi := ih i (by simp) (by simp) rfl
+      · next hph =>
+        have hself := hself (wantsKey_ite hph)
+        have ihi := ih i (by simp) (by simp) rfl
         have iht := ih th (by simp) (by simp) rfl
         have ihe := ih el (by simp) (by simp) rfl
         refine ⟨by rw [hself], ?_⟩
@@ -246,28 +272,75 @@ theorem enc_complete (E : Env) (u : Sym → Option Term) (I : Interp) (hσ : Sim
           cases tv I i <;> cases tv I th <;> cases tv I el <;> rfl
     · exact ⟨hatom, holdsAll_nil⟩
 
+/-! ## form of the top literal -/
+
+/-- either `g` contributes no clause, or its literal is a definition symbol or the negation of one -/
+theorem enc_form (E : Env) (hs : SimpSym E.simp) :
+    (g : Term) → (enc E g).2 = [] ∨ ∃ h ∈ g.subterms, wantsKey h = true ∧
+      ((enc E g).1 = Term.sym (E.key h) ∨ (enc E g).1 = Term.mkNot (Term.sym (E.key h)))
+  | .node op args p => by
+    have ih : ∀ a ∈ args, (enc E a).2 = [] ∨ ∃ h ∈ (Term.node op args p).subterms, wantsKey h = true ∧
+        ((enc E a).1 = Term.sym (E.key h) ∨ (enc E a).1 = Term.mkNot (Term.sym (E.key h))) :=
+      fun a ha => (enc_form E hs a).imp id (fun ⟨h, hh, e⟩ => ⟨h, subterms_child ha hh, e⟩)
+    have hself := subterms_self (Term.node op args p)
+    revert ih hself
+    rw [enc.eq_def]; simp only
+    split <;> intro ih hself
+    · exact ih _ (by simp)
+    · next hne => exact Or.inr ⟨_, hself, wantsKey_and_many hne, Or.inl rfl⟩
+    · exact ih _ (by simp)
+    · next hne => exact Or.inr ⟨_, hself, wantsKey_or_many hne, Or.inl rfl⟩
+    · next a =>
+      split
+      · exact Or.inl rfl
+      · split
+        · exact Or.inl rfl
+        · rcases ih a (by simp) with h | ⟨h, hh, hw, e | e⟩
+          · exact Or.inl h
+          · exact Or.inr ⟨h, hh, hw, Or.inr (by rw [e, negLit_sym hs])⟩
+          · exact Or.inr ⟨h, hh, hw, Or.inl (by rw [e, negLit_notSym hs])⟩
+    · exact Or.inr ⟨_, hself, rfl, Or.inl rfl⟩
+    · exact Or.inr ⟨_, hself, rfl, Or.inl rfl⟩
+    · split
+      · exact Or.inl rfl
+      · next hph => exact Or.inr ⟨_, hself, wantsKey_ite hph, Or.inl rfl⟩
+    · exact Or.inl rfl
+
+theorem isTrueC_sym (k : Sym) : isTrueC (Term.sym k) = false := rfl
+theorem isFalseC_sym (k : Sym) : isFalseC (Term.sym k) = false := rfl
+theorem isTrueC_mkNot (a : Term) : isTrueC (Term.mkNot a) = false := rfl
+theorem isFalseC_mkNot (a : Term) : isFalseC (Term.mkNot a) = false := rfl
+
+/-- a constant literal comes without clauses -/
+theorem enc_const_clauses (E : Env) (hs : SimpSym E.simp) (g : Term)
+    (h : isTrueC (enc E g).1 = true ∨ isFalseC (enc E g).1 = true) : (enc E g).2 = [] := by
+  rcases enc_form E hs g with h' | ⟨k, _, _, e | e⟩
+  · exact h'
+  · rw [e, isTrueC_sym, isFalseC_sym] at h; simp at h
+  · rw [e, isTrueC_mkNot, isFalseC_mkNot] at h; simp at h
+
 /-! ## soundness of the definitions -/
 
-theorem enc_sound (E : Env) (J : Interp) (hσ : SimpSoundAt E.simp J) :
+theorem enc_sound (E : Env) (hs : SimpSym E.simp) (J : Interp) (hσ : SimpSoundAt E.simp J) :
     (g : Term) → holdsAll J (enc E g).2 → tv J (enc E g).1 = tv J g
   | .node op args p => by
     have ih : ∀ a ∈ args, holdsAll J (enc E a).2 → tv J (enc E a).1 = tv J a :=
-      fun a _ => enc_sound E J hσ a
+      fun a _ => enc_sound E hs J hσ a
     revert ih
     rw [enc.eq_def]; simp only
     split <;> intro ih
     · next a =>
       intro h
       rw [ih a (by simp) h, tv_and]; simp
-    · -- n-ary
+    · -- n-ary and
       intro h
       simp only [List.map_map, Function.comp_def] at h
       obtain ⟨h0, h12⟩ := holdsAll_cons.mp h
       obtain ⟨h1, h2⟩ := holdsAll_append.mp h12
       have ih' : ∀ a ∈ args, tv J (enc E a).1 = tv J a := fun a ha =>
         ih a ha (holdsAll_flatten.mp h2 _ (List.mem_map.mpr ⟨a, ha, rfl⟩))
-      have hall : (args.map (fun a => (enc E a).1)).all (tv J) = args.all (tv J) := by
-        exact all_map_congr _ _ _ ih'
+      have hall : (args.map (fun a => (enc E a).1)).all (tv J) = args.all (tv J) :=
+        all_map_congr _ _ _ ih'
       have h0' := (holds_and_main hσ (Term.sym (E.key (.node .and args p))) (args.map (fun a => (enc E a).1))).mp
         (by simpa only [List.map_map, Function.comp_def] using h0)
       have h1' := (holds_and_side (I := J) (Term.sym (E.key (.node .and args p)))
@@ -281,15 +354,15 @@ theorem enc_sound (E : Env) (J : Interp) (hσ : SimpSoundAt E.simp J) :
     · next a =>
       intro h
       rw [ih a (by simp) h, tv_or]; simp
-    · -- n-ary
+    · -- n-ary or
       intro h
       simp only [List.map_map, Function.comp_def] at h
       obtain ⟨h0, h12⟩ := holdsAll_cons.mp h
       obtain ⟨h1, h2⟩ := holdsAll_append.mp h12
       have ih' : ∀ a ∈ args, tv J (enc E a).1 = tv J a := fun a ha =>
         ih a ha (holdsAll_flatten.mp h2 _ (List.mem_map.mpr ⟨a, ha, rfl⟩))
-      have hany : (args.map (fun a => (enc E a).1)).any (tv J) = args.any (tv J) := by
-        exact any_map_congr _ _ _ ih'
+      have hany : (args.map (fun a => (enc E a).1)).any (tv J) = args.any (tv J) :=
+        any_map_congr _ _ _ ih'
       have h0' := (holds_or_main (I := J) (Term.sym (E.key (.node .or args p))) (args.map (fun a => (enc E a).1))).mp
         (by simpa only [List.map_map, Function.comp_def] using h0)
       have h1' := (holds_or_side hσ (Term.sym (E.key (.node .or args p)))
@@ -301,16 +374,383 @@ theorem enc_sound (E : Env) (J : Interp) (hσ : SimpSoundAt E.simp J) :
       rw [tv_or, Bool.eq_iff_iff]
       exact ⟨h0', h1'⟩
     · next a =>
-      simp only
       split
       · next hc =>
         intro _
-        have := ih a (by simp)
-        sorry
-      · sorry
-    · sorry
-    · sorry
-    · sorry
+        have hcl := enc_const_clauses E hs a (Or.inl hc)
+        have := ih a (by simp) (by rw [hcl]; exact holdsAll_nil)
+        rw [tv_not, ← this, tv_of_isTrueC hc]; simp
+      · split
+        · next hc =>
+          intro _
+          have hcl := enc_const_clauses E hs a (Or.inr hc)
+          have := ih a (by simp) (by rw [hcl]; exact holdsAll_nil)
+          rw [tv_not, ← this, tv_of_isFalseC hc]; simp
+        · intro h
+          rw [tv_negLit hσ, ih a (by simp) h, tv_not]
+    · next a b =>
+      intro h
+      simp only [holdsAll_append] at h
+      obtain ⟨⟨h0, ha⟩, hb⟩ := h
+      have iha := ih a (by simp) ha
+      have ihb := ih b (by simp) hb
+      have c1 := h0 _ List.mem_cons_self
+      have c2 := h0 _ (List.mem_cons_of_mem _ List.mem_cons_self)
+      have c3 := h0 _ (List.mem_cons_of_mem _ (List.mem_cons_of_mem _ List.mem_cons_self))
+      simp only [holds, List.any_cons, List.any_nil, tv_negLit hσ, tv_mkNot, iha, ihb] at c1 c2 c3
+      rw [tv_implies]
+      revert c1 c2 c3
+      cases tv J (Term.sym (E.key (Term.node Op.implies [a, b] p))) <;> cases tv J a <;> cases tv J b <;> simp
+    · next a b =>
+      intro h
+      simp only [holdsAll_append] at h
+      obtain ⟨⟨h0, ha⟩, hb⟩ := h
+      have iha := ih a (by simp) ha
+      have ihb := ih b (by simp) hb
+      have c1 := h0 _ List.mem_cons_self
+      have c2 := h0 _ (List.mem_cons_of_mem _ List.mem_cons_self)
+      have c3 := h0 _ (List.mem_cons_of_mem _ (List.mem_cons_of_mem _ List.mem_cons_self))
+      have c4 := h0 _ (List.mem_cons_of_mem _ (List.mem_cons_of_mem _ (List.mem_cons_of_mem _ List.mem_cons_self)))
+      simp only [holds, List.any_cons, List.any_nil, tv_negLit hσ, tv_mkNot, iha, ihb] at c1 c2 c3 c4
+      rw [tv_iff_node]
+      revert c1 c2 c3 c4
+      cases tv J (Term.sym (E.key (Term.node Op.iff [a, b] p))) <;> cases tv J a <;> cases tv J b <;> simp
+    · next i th el =>
+      split
+      · intro _; rfl
+      · intro h
+        simp only [holdsAll_append] at h
+        obtain ⟨⟨⟨h0, hi⟩, ht⟩, he⟩ := h
+        have ihi := ih i (by simp) hi
+        have iht := ih th (by simp) ht
+        have ihe := ih el (by simp) he
+        have c1 := h0 _ List.mem_cons_self
+        have c2 := h0 _ (List.mem_cons_of_mem _ List.mem_cons_self)
+        have c3 := h0 _ (List.mem_cons_of_mem _ (List.mem_cons_of_mem _ List.mem_cons_self))
+        have c4 := h0 _ (List.mem_cons_of_mem _ (List.mem_cons_of_mem _ (List.mem_cons_of_mem _ List.mem_cons_self)))
+        simp only [holds, List.any_cons, List.any_nil, tv_negLit hσ, tv_mkNot, ihi, iht, ihe] at c1 c2 c3 c4
+        rw [tv_ite]
+        revert c1 c2 c3 c4
+        cases tv J (Term.sym (E.key (Term.node Op.ite [i, th, el] p))) <;> cases tv J i <;> cases tv J th <;>
+          cases tv J el <;> simp
     · intro _; rfl
+
+/-! ## literals do not depend on a definition symbol other than through `±k` -/
+
+def AllLits (P : Term → Prop) (cs : List Clause) : Prop := ∀ c ∈ cs, ∀ l ∈ c, P l
+
+theorem allLits_nil {P} : AllLits P [] := by simp [AllLits]
+theorem allLits_cons {P} {c : Clause} {cs} : AllLits P (c :: cs) ↔ (∀ l ∈ c, P l) ∧ AllLits P cs := by
+  simp [AllLits]
+theorem allLits_append {P} {a b : List Clause} : AllLits P (a ++ b) ↔ AllLits P a ∧ AllLits P b := by
+  simp [AllLits, List.mem_append, or_imp, forall_and]
+theorem allLits_flatten {P} {css : List (List Clause)} : AllLits P css.flatten ↔ ∀ cs ∈ css, AllLits P cs := by
+  simp only [AllLits, List.mem_flatten]
+  constructor
+  · intro h cs hcs c hc; exact h c ⟨cs, hcs, hc⟩
+  · rintro h c ⟨cs, hcs, hc⟩; exact h cs hcs c hc
+theorem allLits_map {P} {α} (f : α → Clause) (l : List α) : AllLits P (l.map f) ↔ ∀ x ∈ l, ∀ y ∈ f x, P y := by
+  simp only [AllLits, List.mem_map, forall_exists_index, and_imp, forall_apply_eq_imp_iff₂]
+theorem allLits_mono {P} {a b : List Clause} (h : ∀ c ∈ a, c ∈ b) (hb : AllLits P b) : AllLits P a :=
+  fun c hc => hb c (h c hc)
+
+/-- the literal is `±k`, or has the same truth value under `J` and `J'` -/
+def Stable (J J' : Interp) (k : Sym) (l : Term) : Prop :=
+  l = Term.sym k ∨ l = Term.mkNot (Term.sym k) ∨ tv J' l = tv J l
+
+theorem stable_negLit {E : Env} (hs : SimpSym E.simp) {J J' : Interp} (hσ : SimpSoundAt E.simp J)
+    (hσ' : SimpSoundAt E.simp J') {k : Sym} {l : Term} (h : Stable J J' k l) : Stable J J' k (negLit E l) := by
+  rcases h with rfl | rfl | h
+  · exact Or.inr (Or.inl (negLit_sym hs k))
+  · exact Or.inl (negLit_notSym hs k)
+  · exact Or.inr (Or.inr (by rw [tv_negLit hσ', tv_negLit hσ, h]))
+
+theorem stable_key (J : Interp) (k : Sym) (v : Val) (s : Sym) :
+    Stable J (J.bind k v) k (Term.sym s) ∧ Stable J (J.bind k v) k (Term.mkNot (Term.sym s)) := by
+  by_cases h : s = k
+  · subst h; exact ⟨Or.inl rfl, Or.inr (Or.inl rfl)⟩
+  · have : tv (J.bind k v) (Term.sym s) = tv J (Term.sym s) := by
+      simp only [tv_sym, Interp.bind, h, if_false]
+    exact ⟨Or.inr (Or.inr this), Or.inr (Or.inr (by rw [tv_mkNot, tv_mkNot, this]))⟩
+
+theorem enc_stable (E : Env) (hs : SimpSym E.simp) (J : Interp) (k : Sym) (v : Val)
+    (hσ : SimpSoundAt E.simp J) (hσ' : SimpSoundAt E.simp (J.bind k v)) :
+    (g : Term) → k ∉ g.fv →
+      Stable J (J.bind k v) k (enc E g).1 ∧ AllLits (Stable J (J.bind k v) k) (enc E g).2
+  | .node op args p => by
+    intro hk
+    have hatom : Stable J (J.bind k v) k (Term.node op args p) :=
+      Or.inr (Or.inr (SameOn.bind _ J k v hk).tv.symm)
+    have hkey := stable_key J k v (E.key (Term.node op args p))
+    have ih : ∀ a ∈ args, op ≠ .symbol → op.isQuantifier = false →
+        Stable J (J.bind k v) k (enc E a).1 ∧ AllLits (Stable J (J.bind k v) k) (enc E a).2 :=
+      fun a ha h1 h2 => enc_stable E hs J k v hσ hσ' a (fun hs => hk (fv_child ha hs h1 h2))
+    clear hk
+    revert hatom hkey ih
+    rw [enc.eq_def]; simp only
+    split <;> intro hatom hkey ih
+    · exact ih _ (by simp) (by simp) rfl
+    · have ih' : ∀ a ∈ args, _ := fun a ha => ih a ha (by simp) rfl
+      refine ⟨hkey.1, ?_⟩
+      simp only [List.map_map, Function.comp_def]
+      refine allLits_cons.mpr ⟨?_, allLits_append.mpr ⟨?_, allLits_flatten.mpr ?_⟩⟩
+      · intro l hl
+        rcases List.mem_cons.mp hl with rfl | hl
+        · exact hkey.1
+        · obtain ⟨a, ha, rfl⟩ := List.mem_map.mp hl
+          exact stable_negLit hs hσ hσ' (ih' a ha).1
+      · rw [allLits_map]
+        intro a ha l hl
+        simp only [List.mem_cons, List.mem_nil_iff, or_false] at hl
+        rcases hl with rfl | rfl
+        · exact (ih' a ha).1
+        · exact hkey.2
+      · intro cs hcs
+        obtain ⟨a, ha, rfl⟩ := List.mem_map.mp hcs
+        exact (ih' a ha).2
+    · exact ih _ (by simp) (by simp) rfl
+    · have ih' : ∀ a ∈ args, _ := fun a ha => ih a ha (by simp) rfl
+      refine ⟨hkey.1, ?_⟩
+      simp only [List.map_map, Function.comp_def]
+      refine allLits_cons.mpr ⟨?_, allLits_append.mpr ⟨?_, allLits_flatten.mpr ?_⟩⟩
+      · intro l hl
+        rcases List.mem_cons.mp hl with rfl | hl
+        · exact hkey.2
+        · obtain ⟨a, ha, rfl⟩ := List.mem_map.mp hl
+          exact (ih' a ha).1
+      · rw [allLits_map]
+        intro a ha l hl
+        simp only [List.mem_cons, List.mem_nil_iff, or_false] at hl
+        rcases hl with rfl | rfl
+        · exact hkey.1
+        · exact stable_negLit hs hσ hσ' (ih' a ha).1
+      · intro cs hcs
+        obtain ⟨a, ha, rfl⟩ := List.mem_map.mp hcs
+        exact (ih' a ha).2
+    · next a =>
+      have iha := ih a (by simp) (by simp) rfl
+      split
+      · exact ⟨Or.inr (Or.inr (by simp)), allLits_nil⟩
+      · split
+        · exact ⟨Or.inr (Or.inr (by simp)), allLits_nil⟩
+        · exact ⟨stable_negLit hs hσ hσ' iha.1, iha.2⟩
+    · next a b =>
+      have iha := ih a (by simp) (by simp) rfl
+      have ihb := ih b (by simp) (by simp) rfl
+      refine ⟨hkey.1, ?_⟩
+      simp only [allLits_append]
+      refine ⟨⟨?_, iha.2⟩, ihb.2⟩
+      intro c hc l hl
+      simp only [List.mem_cons, List.mem_nil_iff, or_false] at hc
+      rcases hc with rfl | rfl | rfl <;>
+        simp only [List.mem_cons, List.mem_nil_iff, or_false] at hl <;>
+        rcases hl with rfl | rfl | rfl <;>
+        first
+          | exact hkey.1 | exact hkey.2 | exact iha.1 | exact ihb.1
+          | exact stable_negLit hs hσ hσ' iha.1 | exact stable_negLit hs hσ hσ' ihb.1
+    · next a b =>
+      have iha := ih a (by simp) (by simp) rfl
+      have ihb := ih b (by simp) (by simp) rfl
+      refine ⟨hkey.1, ?_⟩
+      simp only [allLits_append]
+      refine ⟨⟨?_, iha.2⟩, ihb.2⟩
+      intro c hc l hl
+      simp only [List.mem_cons, List.mem_nil_iff, or_false] at hc
+      rcases hc with rfl | rfl | rfl | rfl <;>
+        simp only [List.mem_cons, List.mem_nil_iff, or_false] at hl <;>
+        rcases hl with rfl | rfl | rfl <;>
+        first
+          | exact hkey.1 | exact hkey.2 | exact iha.1 | exact ihb.1
+          | exact stable_negLit hs hσ hσ' iha.1 | exact stable_negLit hs hσ hσ' ihb.1
+    · next i th el =>
+      split
+      · exact ⟨hatom, allLits_nil⟩
+      · have ihi := ih i (by simp) (by simp) rfl
+        have iht := ih th (by simp) (by simp) rfl
+        have ihe := ih el (by simp) (by simp) rfl
+        refine ⟨hkey.1, ?_⟩
+        simp only [allLits_append]
+        refine ⟨⟨⟨?_, ihi.2⟩, iht.2⟩, ihe.2⟩
+        intro c hc l hl
+        simp only [List.mem_cons, List.mem_nil_iff, or_false] at hc
+        rcases hc with rfl | rfl | rfl | rfl <;>
+          simp only [List.mem_cons, List.mem_nil_iff, or_false] at hl <;>
+          rcases hl with rfl | rfl | rfl <;>
+          first
+            | exact hkey.1 | exact hkey.2 | exact ihi.1 | exact iht.1 | exact ihe.1
+            | exact stable_negLit hs hσ hσ' ihi.1 | exact stable_negLit hs hσ hσ' iht.1
+            | exact stable_negLit hs hσ hσ' ihe.1
+    · exact ⟨hatom, allLits_nil⟩
+
+/-! ## the top-level clean-up -/
+
+theorem holds_nil (I : Interp) : holds I [] = false := rfl
+
+theorem cleanClause_none {E : Env} {tl : Term} {c : Clause} (h : cleanClause E tl c = none) :
+    ∃ l ∈ c, isTrueC l = true ∨ l = tl := by
+  unfold cleanClause at h
+  split at h
+  · next hc =>
+    obtain ⟨l, hl, hv⟩ := List.any_eq_true.mp hc
+    refine ⟨l, hl, ?_⟩
+    simpa using hv
+  · cases h
+
+theorem cleanClause_some {E : Env} {tl : Term} {c c' : Clause} (h : cleanClause E tl c = some c') :
+    (∀ l ∈ c, isTrueC l = false ∧ l ≠ tl) ∧
+      ∀ l, l ∈ c' ↔ (l ∈ c ∧ l ≠ negLit E tl ∧ isFalseC l = false) := by
+  unfold cleanClause at h
+  split at h
+  · cases h
+  · next hc =>
+    cases h
+    constructor
+    · intro l hl
+      have := fun hh => hc (List.any_eq_true.mpr ⟨l, hl, hh⟩)
+      simp only [Bool.or_eq_true, beq_iff_eq] at this
+      refine ⟨?_, fun e => this (Or.inr e)⟩
+      cases ht : isTrueC l
+      · rfl
+      · exact absurd (Or.inl ht) this
+    · intro l
+      simp only [List.mem_filter, Bool.and_eq_true, Bool.not_eq_true', beq_eq_false_iff_ne, ne_eq]
+
+theorem finish_complete (E : Env) (I : Interp) (tl : Term) (cs : List Clause) (hσ : SimpSoundAt E.simp I)
+    (hcs : holdsAll I cs) (htl : tv I tl = true) : holdsAll I (finish E tl cs) := by
+  have hclean : ∀ c ∈ cs, ∀ c', cleanClause E tl c = some c' → holds I c' = true := by
+    intro c hc c' hcl
+    obtain ⟨l, hl, hv⟩ := List.any_eq_true.mp (hcs c hc)
+    refine List.any_eq_true.mpr ⟨l, ((cleanClause_some hcl).2 l).mpr ⟨hl, ?_, ?_⟩, hv⟩
+    · rintro rfl
+      rw [tv_negLit hσ, htl] at hv; cases hv
+    · cases hf : isFalseC l
+      · rfl
+      · rw [tv_of_isFalseC hf] at hv; cases hv
+  unfold finish
+  split
+  · intro c hc
+    simp only [List.mem_cons, List.mem_nil_iff, or_false] at hc
+    subst hc
+    simp [holds, htl]
+  · split
+    · next hemp =>
+      obtain ⟨c, hc, he⟩ := List.any_eq_true.mp hemp
+      have := hcs c hc
+      simp only [List.isEmpty_iff] at he
+      rw [he, holds_nil] at this; cases this
+    · simp only
+      have hcl : holdsAll I (cs.filterMap (cleanClause E tl)) := by
+        intro c' hc'
+        obtain ⟨c, hc, hcl⟩ := List.mem_filterMap.mp hc'
+        exact hclean c hc c' hcl
+      split
+      · next hemp =>
+        obtain ⟨c, hc, he⟩ := List.any_eq_true.mp hemp
+        have := hcl c hc
+        simp only [List.isEmpty_iff] at he
+        rw [he, holds_nil] at this; cases this
+      · exact (holdsAll_norm I _).mpr hcl
+
+theorem not_holdsAll_falseCnf (I : Interp) : ¬ holdsAll I falseCnf := by
+  intro h
+  have := h [] (by simp [falseCnf])
+  rw [holds_nil] at this; cases this
+
+theorem finish_sound (E : Env) (J J' : Interp) (tl : Term) (cs : List Clause)
+    (hst : AllLits (fun l => l = tl ∨ l = negLit E tl ∨ tv J' l = tv J l) cs)
+    (htl : tv J' tl = true) (hne : cs ≠ []) (h : holdsAll J (finish E tl cs)) : holdsAll J' cs := by
+  unfold finish at h
+  split at h
+  · next he => simp only [List.isEmpty_iff] at he; exact absurd he hne
+  · split at h
+    · exact absurd h (not_holdsAll_falseCnf J)
+    · simp only at h
+      split at h
+      · exact absurd h (not_holdsAll_falseCnf J)
+      · have hcl := (holdsAll_norm J _).mp h
+        intro c hc
+        cases hcc : cleanClause E tl c with
+        | none =>
+          obtain ⟨l, hl, hv⟩ := cleanClause_none hcc
+          refine List.any_eq_true.mpr ⟨l, hl, ?_⟩
+          rcases hv with hv | rfl
+          · exact tv_of_isTrueC hv
+          · exact htl
+        | some c' =>
+          have hc' : c' ∈ cs.filterMap (cleanClause E tl) := List.mem_filterMap.mpr ⟨c, hc, hcc⟩
+          obtain ⟨l, hl, hv⟩ := List.any_eq_true.mp (hcl c' hc')
+          obtain ⟨hlc, hln, _⟩ := ((cleanClause_some hcc).2 l).mp hl
+          refine List.any_eq_true.mpr ⟨l, hlc, ?_⟩
+          rcases hst c hc l hlc with rfl | rfl | e
+          · exact htl
+          · exact absurd rfl hln
+          · rw [e]; exact hv
+
+/-! ## the two directions for `convert` -/
+
+theorem convert_complete (E : Env) (u : Sym → Option Term) (I : Interp) (t : Term) (R : List Clause)
+    (hk : ∀ h ∈ t.subterms, wantsKey h = true → u (E.key h) = some h) (hf : ∀ s ∈ t.fv, u s = none)
+    (hσ : SimpSound E.simp t I) (hR : convert E t = some R) (hI : tv I t = true) :
+    holdsAll (ext u I) R := by
+  unfold convert at hR
+  split at hR
+  · cases hR
+    have hσ' := hσ _ (ext_sameOn I t hf)
+    have := enc_complete E u I hσ' t hk hf
+    exact finish_complete E _ _ _ hσ' this.2 (by rw [this.1, hI])
+  · cases hR
+
+theorem bind_sym_self (J : Interp) (k : Sym) (v : Val) : (J.bind k v).sym k = v := by
+  simp [Interp.bind]
+
+/-- the generic argument behind `cnf_sound` and `polCnf_sound`: from a model of the cleaned-up clauses
+to a model of the clauses in which the top literal holds -/
+theorem finish_sound_key (E : Env) (hs : SimpSym E.simp) (t : Term) (J : Interp)
+    (tl : Term) (cs : List Clause) (k : Sym) (hk : k ∉ t.fv)
+    (hform : tl = Term.sym k ∨ tl = Term.mkNot (Term.sym k))
+    (hst : ∀ v, AllLits (Stable J (J.bind k v) k) cs)
+    (hne : cs ≠ []) (h : holdsAll J (finish E tl cs)) :
+    ∃ v, SameOn t J (J.bind k v) ∧ holdsAll (J.bind k v) cs ∧ tv (J.bind k v) tl = true := by
+  rcases hform with rfl | rfl
+  · refine ⟨.b true, SameOn.bind t J k _ hk, ?_, ?_⟩
+    · refine finish_sound E J _ _ cs ?_ ?_ hne h
+      · intro c hc l hl
+        rcases hst (.b true) c hc l hl with e | e | e
+        · exact Or.inl e
+        · exact Or.inr (Or.inl (by rw [negLit_sym hs]; exact e))
+        · exact Or.inr (Or.inr e)
+      · simp [tv_sym, bind_sym_self]
+    · simp [tv_sym, bind_sym_self]
+  · refine ⟨.b false, SameOn.bind t J k _ hk, ?_, ?_⟩
+    · refine finish_sound E J _ _ cs ?_ ?_ hne h
+      · intro c hc l hl
+        rcases hst (.b false) c hc l hl with e | e | e
+        · exact Or.inr (Or.inl (by rw [negLit_notSym hs]; exact e))
+        · exact Or.inl e
+        · exact Or.inr (Or.inr e)
+      · simp [tv_mkNot, tv_sym, bind_sym_self]
+    · simp [tv_mkNot, tv_sym, bind_sym_self]
+
+theorem convert_sound (E : Env) (hs : SimpSym E.simp) (t : Term) (J : Interp) (R : List Clause)
+    (hfresh : ∀ h ∈ t.subterms, wantsKey h = true → E.key h ∉ t.fv) (hσ : SimpSound E.simp t J)
+    (hR : convert E t = some R) (h : holdsAll J R) : tv J t = true := by
+  unfold convert at hR
+  split at hR
+  · cases hR
+    by_cases hcs : (enc E t).2 = []
+    · rw [hcs] at h
+      have h1 : tv J (enc E t).1 = true := by
+        have := h [(enc E t).1] (by simp [finish])
+        simpa [holds] using this
+      rw [← enc_sound E hs J hσ.self t (by rw [hcs]; exact holdsAll_nil)]
+      exact h1
+    · rcases enc_form E hs t with h0 | ⟨g, hg, hwk, hform⟩
+      · exact absurd h0 hcs
+      · have hk := hfresh g hg hwk
+        obtain ⟨v, hsame, hall, htl⟩ := finish_sound_key E hs t J _ _ (E.key g) hk hform
+          (fun v => (enc_stable E hs J (E.key g) v hσ.self (hσ _ (SameOn.bind t J _ v hk)) t hk).2) hcs h
+        rw [hsame.tv, ← enc_sound E hs _ (hσ _ hsame) t hall]
+        exact htl
+  · cases hR
 
 end PySMT.CNF
